@@ -10,6 +10,7 @@ package main
 import (
 	"bytes"
 	"fmt"
+	"math"
 	"sort"
 	"strconv"
 	"strings"
@@ -36,7 +37,13 @@ type ListCase struct {
 
 func (c *ListCase) doc() string { return `{"items": ` + c.Init[2] + `, "other": 1}` }
 
+// literals that JSON cannot spell: not-a-number and the infinities, made by num()
+var specialLits = map[string]float64{`num("nan")`: math.NaN(), `num("inf")`: math.Inf(1), `num("-inf")`: math.Inf(-1)}
+
 func parseLit(s string) (HV, bool) {
+	if f, ok := specialLits[s]; ok {
+		return hNum(f), true
+	}
 	r := ScanStream([]byte(s))
 	if r.Status != RefClean || len(r.Values) != 1 {
 		return HV{}, false
@@ -46,6 +53,16 @@ func parseLit(s string) (HV, bool) {
 
 // jqawk literal text for a scalar model value
 func scalarLit(v HV) string {
+	if v.K == 'n' {
+		switch {
+		case math.IsNaN(v.Num):
+			return `num("nan")`
+		case math.IsInf(v.Num, 1):
+			return `num("inf")`
+		case math.IsInf(v.Num, -1):
+			return `num("-inf")`
+		}
+	}
 	return v.canon()
 }
 
@@ -54,10 +71,11 @@ type listModel struct {
 }
 
 type listStep struct {
-	stmts  []string // statements to execute
-	result string   // expected R payload ("" none)
-	q      bool     // a Q line follows (contains): R must equal the OR of the Q values
-	fatal  bool     // the operation must end the run with a runtime error
+	stmts   []string // statements to execute
+	result  string   // expected R payload ("" none)
+	result2 string   // a second R line
+	q       bool     // a Q line follows (contains): R must equal the OR of the Q values
+	fatal   bool     // the operation must end the run with a runtime error
 }
 
 func allScalar(l []HV) bool {
@@ -81,6 +99,9 @@ func sortKeyOK(l []HV) bool {
 	for _, v := range l {
 		if v.K != 'n' && v.K != 's' {
 			return false
+		}
+		if v.K == 'n' && math.IsNaN(v.Num) {
+			return false // the position of not-a-number in a sort is not fixed by the statement
 		}
 	}
 	return true
@@ -199,6 +220,39 @@ func (m *listModel) step(op *LOp) (listStep, error) {
 			return listStep{}, errUnsupported{"sort needs numbers and strings"}
 		}
 		return listStep{stmts: []string{R(H + ".sort()")}, result: "[" + canonList(sortedCopy(*l)) + "]"}, nil
+	case "bulk-push":
+		// many pushes in a loop: the backing store grows through several capacities
+		cnt := op.Idx
+		if cnt < 1 || cnt > 2000 {
+			return listStep{}, errUnsupported{"count"}
+		}
+		for i := 0; i < cnt; i++ {
+			*l = append(*l, hNum(float64(i)))
+		}
+		return listStep{stmts: []string{fmt.Sprintf("for (bi = 0; bi < %d; bi++) { %s.push(bi) }", cnt, H), R(H + ".length()")}, result: "[" + strconv.Itoa(len(*l)) + "]"}, nil
+	case "bulk-pop", "bulk-popfirst":
+		cnt := op.Idx
+		if cnt < 1 || cnt > 2000 {
+			return listStep{}, errUnsupported{"count"}
+		}
+		sum := 0.0
+		for i := 0; i < cnt && len(*l) > 0; i++ {
+			var v HV
+			if op.Kind == "bulk-pop" {
+				v = (*l)[len(*l)-1]
+				*l = (*l)[:len(*l)-1]
+			} else {
+				v = (*l)[0]
+				*l = append([]HV(nil), (*l)[1:]...)
+			}
+			if v.K != 'n' || math.IsNaN(v.Num) || math.IsInf(v.Num, 0) {
+				return listStep{}, errUnsupported{"bulk pops need plain numbers"}
+			}
+			sum += v.Num
+		}
+		meth := strings.TrimPrefix(op.Kind, "bulk-")
+		// the popped values are summed (each must be the right element), then the length is read
+		return listStep{stmts: []string{fmt.Sprintf("bs = 0\nfor (bi = 0; bi < %d; bi++) { if (%s.length() > 0) { bs += %s.%s() } }", cnt, H, H, meth), R("bs"), R(H + ".length()")}, result: "[" + fmtNum(sum) + "]", result2: "[" + strconv.Itoa(len(*l)) + "]"}, nil
 	case "sort-store":
 		// keep the sorted copy, change it, and look at the original again
 		if !sortKeyOK(*l) {
@@ -385,6 +439,9 @@ func runListCase(c *ListCase, keep bool) Outcome {
 			want = append(want, exp{tag: "R", op: i, q: true}, exp{tag: "Q", op: i})
 		} else if st.result != "" {
 			want = append(want, exp{tag: "R", vals: []string{st.result}, op: i})
+			if st.result2 != "" {
+				want = append(want, exp{tag: "R", vals: []string{st.result2}, op: i})
+			}
 		}
 		sb.WriteString(listDump + "\n")
 		want = append(want, exp{tag: "S", vals: m.dump(), op: i})
@@ -502,7 +559,7 @@ func runListCase(c *ListCase, keep bool) Outcome {
 
 // ---------------------------------------------------------------- generator
 
-var listScalarLits = []string{"1", "2", "3", "10", "9", "0", "-5", "2.5", "100000", `"b"`, `"a"`, `"10"`, `"9"`, `"zz"`, `""`, `"B"`, "true", "false", "null"}
+var listScalarLits = []string{"1", "2", "3", "10", "9", "0", "-5", "2.5", "100000", `"b"`, `"a"`, `"10"`, `"9"`, `"zz"`, `""`, `"B"`, "true", "false", "null", `num("nan")`, `num("inf")`, `num("-inf")`, "-0", "1000000000000000000000", `"1e1"`, `" 1"`}
 var listSortableLits = []string{"1", "2", "3", "10", "9", "0", "-5", "2.5", "100000", `"b"`, `"a"`, `"10"`, `"9"`, `"zz"`, `"B"`, `"1"`}
 var listContainerLits = []string{"[1]", "[]", `{"k": 1}`, "[[2], 3]"}
 
@@ -521,7 +578,7 @@ func genListLit(t *Tape, profile int) string {
 	return listScalarLits[t.Draw(len(listScalarLits))]
 }
 
-func genListCase(t *Tape, maxOps int) *ListCase {
+func genListCase(t *Tape, maxOps int, bulk bool) *ListCase {
 	c := &ListCase{}
 	profile := t.Weighted(2, 3, 3, 2)
 	// some arrays are long and tie-heavy: equal sort keys with distinguishable
@@ -538,6 +595,9 @@ func genListCase(t *Tape, maxOps int) *ListCase {
 				parts[k] = []string{"1", `"1"`, "2", `"2"`, "10", `"10"`, "9", `"9"`}[t.Draw(8)]
 			} else {
 				parts[k] = genListLit(t, profile)
+				if _, special := specialLits[parts[k]]; special {
+					parts[k] = "7" // initial arrays are JSON text
+				}
 			}
 		}
 		c.Init[i] = "[" + strings.Join(parts, ", ") + "]"
@@ -547,7 +607,17 @@ func genListCase(t *Tape, maxOps int) *ListCase {
 	for tries := 0; len(c.Ops) < n && tries < n*6; tries++ {
 		op := LOp{Arr: t.Draw(3)}
 		ln := len(m.lists[op.Arr])
-		switch t.Weighted(8, 5, 5, 3, 4, 4, 4, 3, 8, 1, 2) {
+		bw := 0
+		if bulk {
+			bw = 6
+		}
+		switch t.Weighted(8, 5, 5, 3, 4, 4, 4, 3, 8, 1, 2, bw, bw, bw) {
+		case 11:
+			op.Kind, op.Idx = "bulk-push", []int{20, 70, 300, 600, 1100}[t.Draw(5)]
+		case 12:
+			op.Kind, op.Idx = "bulk-pop", []int{5, 60, 290, 550, 1000}[t.Draw(5)]
+		case 13:
+			op.Kind, op.Idx = "bulk-popfirst", []int{5, 60, 290, 550, 1000}[t.Draw(5)]
 		case 9:
 			op.Kind = "contains-unset"
 		case 10:
@@ -621,10 +691,11 @@ func genListCase(t *Tape, maxOps int) *ListCase {
 
 func registerC15() {
 	mk := func(name string, count map[string]int, maxOps int) *Workload {
+		bulk := name == "bulk-histories"
 		return &Workload{
 			Name:     name,
 			Count:    func(tier string) int { return count[tier] },
-			Gen:      func(i int, t *Tape, tier string) any { return genListCase(t, maxOps) },
+			Gen:      func(i int, t *Tape, tier string) any { return genListCase(t, maxOps, bulk) },
 			Run:      func(c any, keep bool) Outcome { return runListCase(c.(*ListCase), keep) },
 			New:      func() any { return &ListCase{} },
 			Simplify: simplifyList,
@@ -645,6 +716,7 @@ func registerC15() {
 		Workloads: []*Workload{
 			mk("histories", map[string]int{"quick": 300000, "thorough": 8000000}, 16),
 			mk("long-histories", map[string]int{"quick": 25000, "thorough": 600000}, 60),
+			mk("bulk-histories", map[string]int{"quick": 2500, "thorough": 100000}, 10),
 		},
 	})
 }
